@@ -13,14 +13,14 @@ META = {
     "id": "C20",
     "engine": "engine",
     "design_ref": "5/C20",
-    "coq_targets": ["Props/Properties_C20.vo", "Engine/Check.vo"],
-    "coq_files": ["Engine/Model.v", "Engine/Spec.v", "Engine/Check.v", "Engine/GetProofs.v", "Engine/GetWitness.v", "Props/Properties_C20.v"],
+    "coq_targets": ["Props/Properties_C20.vo", "Engine/Check.vo", "Engine/Check20.vo"],
+    "coq_files": ["Engine/Model.v", "Engine/Spec.v", "Engine/Check.v", "Engine/Check20.v", "Engine/GetProofs.v", "Engine/GetWitness.v", "Props/Properties_C20.v"],
     "theorems": ["C20_get_iff_partial", "C20_get_iff_refuted", "C20_error_does_not_hide",
                  "C20_removed_stays_removed_partial", "C20_removed_reappears_refuted",
                  "C20_head_iff_partial"],
     "technique": "Coq proof (induction over the shard visiting order, for every engine state, order, fault oracle, error "
                  "threshold) about a hand-written executable model of StorageEngine.get/Head over abstract shards + "
-                 "differential correspondence of whole histories (put/get/head/delete/drop/mark/mode/fault/epoch/GC/add shard) "
+                 "differential correspondence of whole histories (put/Get/GetBytes/GetStream/Head/delete/drop/mark/mode/fault/data loss/epoch/GC/add shard) "
                  "against a real engine over 1-4 real shards",
     "level_text": "C20_get_iff_partial: for every list of shards (any contents, modes, fault flags, error counters), every visiting "
                   "order that is a permutation of the shards, every threshold and epoch: if the state is `consistent` for address a "
@@ -52,28 +52,31 @@ CLASS_TEXT = {
 }
 
 
+READS = ("get", "getb", "gets", "head")   # Get, GetBytes, GetStream, Head
+
+
 def chunks(hs, n):
     return [(o, hs[o:o + n]) for o in range(0, len(hs), n)]
 
 
 def evaluate(ctx, hs, ch=8):
     """-> (model mismatches [(hist, op)], deviations [(hist, op, class)], stats [consistent, reads]) or None"""
-    jobs = [("c20", E.PRELUDE + E.hists_def(part),
-             {"model": "model_mismatches cases", "devs": "all_devs cases", "stats": "reads_stats cases"})
+    jobs = [("c20", E.PRELUDE20 + E.hists20_def(part),
+             {"model": "model_mismatches20 cases", "devs": "all_devs20 cases", "stats": "reads_stats20 cases"})
             for (_, part) in chunks(hs, ch)]
-    mm, devs, stats = [], [], [0, 0]
+    mm, devs, stats = [], [], [0, 0, 0, 0]
     for (off, _), res in zip(chunks(hs, ch), ctx.coq_eval_many(jobs)):
         if res is None:
             return None
         mm += [(off + h, k) for (h, k) in E.decode(res["model"])]
         devs += [(off + d // 100 // 1000, d // 100 % 1000, d % 100) for d in res["devs"]]
-        stats = [stats[0] + res["stats"][0], stats[1] + res["stats"][1]]
+        stats = [a + b for a, b in zip(stats, res["stats"])]
     return mm, devs, stats
 
 
 def run(ctx):
     ctx.prove()
-    model = ctx.model_ready(["Engine/Check.vo"])
+    model = ctx.model_ready(["Engine/Check.vo", "Engine/Check20.vo"])
     binp = ctx.go_build()
     if ctx.replay:
         rp = json.load(open(ctx.replay))
@@ -100,7 +103,7 @@ def run(ctx):
     ctx.tie(not unexpected)                          # real reads satisfy the theorem's right-hand side in consistent states
     for (h, k) in mm[:5]:
         o = hs[h]["ops"][k]
-        r = ctx.coq_eval_lists("obs", E.PRELUDE + E.hists_def([hs[h]]), {"m": "model_obs_at (nth 0 cases (0%%nat, 0, [], [])) %d%%nat" % k})
+        r = ctx.coq_eval_lists("obs", E.PRELUDE20 + E.hists20_def([hs[h]]), {"m": "model_obs_at20 (nth 0 cases (0%%nat, 0, [], [])) %d%%nat" % k})
         ctx.violation({"what": "real engine and model disagree", "seed": origin[h][0], "hist": origin[h][1], "nops": k + 1,
                        "op": o, "impl": {"res": o["res"], "tag": o["tag"], "modes": o["modes"], "errs": o["errs"]},
                        "model_code_tag_modes_999_errs": r and r["m"],
@@ -115,19 +118,23 @@ def run(ctx):
                        "read": o, "reference": "Found iff stored on a readable shard and not removed (Engine/Spec.v ref_found)",
                        "objects": hs[h]["objs"], "prefix": hs[h]["ops"][:k + 1]}, key=KNOWN.get(cl))
     ops = [o for h in hs for o in h["ops"]]
-    reads = [o for o in ops if o["op"] in ("get", "head")]
+    reads = [o for o in ops if o["op"] in READS]
     ctx.cov.update({
         "evaluations": len(ops),
         "distinct_nontrivial": vlib.distinct_count([(o["op"], o.get("ord"), o["res"], o["tag"], o["modes"], o["errs"]) for o in reads if len(o["modes"]) > 1]),
         "rule": "one evaluation = one engine operation compared with the model (result class, returned bytes tag, all shard modes "
-                "and error counters); non-trivial = reads on engines with >= 2 shards, distinct by (op, order, result, modes, error counters)",
+                "and error counters); operations include the loss of one object's data on one shard (real fstree delete behind the "
+                "shard's back: metadata without data) and every fourth history opens with two copies of one object, one losing its "
+                "data, the other holder degraded; non-trivial = reads on engines with >= 2 shards, distinct by (op, order, result, modes, error counters)",
         "histories": len(hs),
         "reads": len(reads),
         "reads_checked_against_reference": stats[1],
         "reads_in_consistent_state": stats[0],
+        "reads_with_metadata_but_no_data_on_some_shard": stats[2],
+        "of_those_reference_says_found(copy on another readable shard)": stats[3],
         "deviation_classes": {CLASS_TEXT.get(c, str(c))[:60]: n for c, n in seen.items()},
         "op_histogram": dict(collections.Counter(o["op"] for o in ops)),
-        "result_histogram": dict(collections.Counter("%s:%d" % (o["op"], o["res"]) for o in ops if o["op"] in ("get", "head", "put", "del", "drop"))),
+        "result_histogram": dict(collections.Counter("%s:%d" % (o["op"], o["res"]) for o in ops if o["op"] in READS + ("put", "del", "drop"))),
         "shards_histogram": dict(collections.Counter(len(o["modes"]) for o in ops)),
         "mode_histogram": dict(collections.Counter(m for o in reads for m in o["modes"])),
         "samples": [hs[0]["ops"][i] for i in range(min(3, len(hs[0]["ops"])))] if hs else [],
